@@ -31,6 +31,7 @@
 #include <memory>
 #include <fstream>
 #include <unistd.h>
+#include <sys/stat.h>
 
 namespace sim {
 
@@ -90,12 +91,14 @@ inline void canonXalan(const XalanNode* n, std::string& o) {
     case XalanNode::DOCUMENT_NODE: case XalanNode::DOCUMENT_FRAGMENT_NODE:
         o += "D{"; for (const XalanNode* c = n->getFirstChild(); c; c = c->getNextSibling()) canonXalan(c, o); o += "}"; break;
     case XalanNode::ELEMENT_NODE: {
-        o += "E{"; canonEsc(o, toUtf8(n->getNamespaceURI())); o += "|"; canonEsc(o, toUtf8(n->getLocalName())); o += "|";
+        { std::string ln = toUtf8(n->getLocalName()); if (ln.empty()) { ln = toUtf8(n->getNodeName()); size_t c = ln.find(':'); if (c != std::string::npos) ln = ln.substr(c + 1); }
+          o += "E{"; canonEsc(o, toUtf8(n->getNamespaceURI())); o += "|"; canonEsc(o, ln); o += "|"; }
         std::vector<std::string> attrs; const XalanNamedNodeMap* m = n->getAttributes();
         for (XalanSize_t i = 0; m && i < m->getLength(); ++i) {
             const XalanNode* a = m->item(i); std::string nm = toUtf8(a->getNodeName());
             if (nm == "xmlns" || nm.compare(0, 6, "xmlns:") == 0) continue;
-            std::string e; canonEsc(e, toUtf8(a->getNamespaceURI())); e += "^"; canonEsc(e, toUtf8(a->getLocalName())); e += "="; canonEsc(e, toUtf8(a->getNodeValue()));
+            std::string ln = toUtf8(a->getLocalName()); if (ln.empty()) { ln = nm; size_t c = ln.find(':'); if (c != std::string::npos) ln = ln.substr(c + 1); }
+            std::string e; canonEsc(e, toUtf8(a->getNamespaceURI())); e += "^"; canonEsc(e, ln); e += "="; canonEsc(e, toUtf8(a->getNodeValue()));
             attrs.push_back(e);
         }
         std::sort(attrs.begin(), attrs.end()); for (auto& a : attrs) { o += a; o += ";"; }
@@ -129,6 +132,13 @@ inline std::string canonFromBytes(const std::string& bytes, std::string* err = n
     if (eh.failed || !parser.getDocument()) { if (err) *err = eh.msg.empty() ? "parse failed" : eh.msg; return ""; }
     std::string o; canonDOM(parser.getDocument(), o); return o;
 }
+// true when the bytes hold no markup and no text at all (an empty result, possibly with an XML declaration / BOM)
+inline bool emptyResult(const std::string& bytes) {
+    std::string b = bytes; if (b.compare(0, 3, "\xEF\xBB\xBF") == 0) b = b.substr(3);
+    if (b.compare(0, 5, "<?xml") == 0) { size_t e = b.find("?>"); if (e != std::string::npos) b = b.substr(e + 2); }
+    for (char c : b) if (c != ' ' && c != '\n' && c != '\r' && c != '\t') return false;
+    return true;
+}
 
 // ------------------------------------------------------------------ a transformer with its simulated world
 struct Param { std::string name, kind, value; };   // kind: expr | string | number
@@ -144,7 +154,7 @@ struct XEnv {
     SimFS fs; std::unique_ptr<SimResolver> resolver;
     std::vector<const XalanCompiledStylesheet*> sheets;
     std::vector<const XalanParsedSource*> sources;
-    std::string scratchDir;
+    std::string scratchDir; std::vector<std::string> scratchFiles;
     // placeInManager: allocate the transformer object itself from the manager too (deterministic-arena runs)
     explicit XEnv(xercesc::MemoryManager* m = nullptr, bool placeInManager = false) : mm(m) {
         if (m && placeInManager) { void* p = m->allocate(sizeof(XalanTransformer)); T = std::unique_ptr<XalanTransformer, TransformerDeleter>(new (p) XalanTransformer(*m), TransformerDeleter{ m }); }
@@ -199,13 +209,21 @@ struct XReq {
 
 inline std::string writeScratch(XEnv& env, const std::string& name, const std::string& bytes) {
     if (env.scratchDir.empty()) {
+        static unsigned long counter = 0;
         const char* rd = getenv("VERIF_RUNDIR"); std::string base = rd ? rd : "/tmp";
-        env.scratchDir = base + "/scratch-" + std::to_string(getpid()) + "-" + std::to_string((uintptr_t)&env & 0xffff);
-        std::string cmd = "mkdir -p '" + env.scratchDir + "'"; int rc = system(cmd.c_str()); (void)rc;
+        ::mkdir(base.c_str(), 0777);
+        env.scratchDir = base + "/scratch-" + std::to_string(getpid()) + "-" + std::to_string(++counter);
+        ::mkdir(env.scratchDir.c_str(), 0777);
     }
-    std::string p = env.scratchDir + "/" + name; std::ofstream f(p, std::ios::binary); f.write(bytes.data(), bytes.size()); return p;
+    std::string p = env.scratchDir + "/" + name; std::ofstream f(p, std::ios::binary); f.write(bytes.data(), bytes.size());
+    if (std::find(env.scratchFiles.begin(), env.scratchFiles.end(), p) == env.scratchFiles.end()) env.scratchFiles.push_back(p);
+    return p;
 }
-inline void removeScratch(XEnv& env) { if (!env.scratchDir.empty()) { std::string cmd = "rm -rf '" + env.scratchDir + "'"; int rc = system(cmd.c_str()); (void)rc; env.scratchDir.clear(); } }
+inline void removeScratch(XEnv& env) {
+    if (env.scratchDir.empty()) return;
+    for (auto& f : env.scratchFiles) ::unlink(f.c_str());
+    ::rmdir(env.scratchDir.c_str()); env.scratchFiles.clear(); env.scratchDir.clear();
+}
 
 // SAX2 -> XalanDocumentBuilder bridge
 struct BuilderFeeder : public xercesc::DefaultHandler {
@@ -319,7 +337,8 @@ inline XformOut runTransform(XEnv& env, const XReq& rq, SimSink& sink, const Xal
         }
         if (!preparsed) {
             if (rq.srcForm == "stream") { dstream.reset(new SimIStream(docSeen, rq.docFault, &env.fs.stats)); din.reset(new XSLTInputSource(dstream.get(), mm)); din->setSystemId(xs(docId, mm).c_str()); }
-            else if (rq.srcForm == "file") { std::string p = writeScratch(env, "doc.xml", docSeen); din.reset(new XSLTInputSource(p.c_str(), mm)); }
+            else if (rq.srcForm == "file") { std::string p = writeScratch(env, "doc.xml", docSeen); din.reset(new XSLTInputSource(p.c_str(), mm));
+                if (rq.ssForm == "pi") { writeScratch(env, "ss.xsl", xslSeen); for (auto& kv : env.fs.files) if (kv.first != "ss.xsl" && kv.first != "doc.xml") writeScratch(env, kv.first, kv.second); } }
             else { dsrc.reset(new SimInputSource(docSeen, rq.docFault, docId, &env.fs.stats)); }
         }
         bool haveSS = true;
